@@ -1,10 +1,16 @@
 (* Properties/C05.v : Storage stays within capacity by pruning farthest-first.
-   Sequential clauses: theorems over all histories.  The clause "whether they were issued one after another or
-   concurrently" is PARTIAL: Proofs/StorageConc.v models Put as small steps and proves (a) C05_conc_unlocked_refuted -
-   for the code without a lock a two-thread schedule leaves the persisted usage figure below the bytes held - and (b)
-   C05_conc_locked_serial - when Put is atomic (the mutex of fix C05-put-mutex) every schedule is a serial history, so
-   the sequential theorems apply.  That the real mutex makes the real Put atomic, and the behaviour of the real
-   scheduler, are only exercised by the stress run of the harness (conc lines), not proved. *)
+   Sequential clauses: theorems over all histories.
+   Concurrent clause ("whether they were issued one after another or concurrently"): Model/StorageConc.v is a
+   small-step machine - N goroutines, an arbitrary scheduler, Put split at every shared access (radius load, counter
+   add, batch commit, prune: snapshot scan / counter load / counter store + synced batch), with or without the mutex.
+   Proved for EVERY schedule of the machine with the mutex: the store is the serial execution of the Puts in
+   lock-acquisition order (C05_conc_locked_serial, induction over schedules), hence the accounting invariant and the
+   capacity bound hold after every concurrent history (C05_conc_locked_accounting, C05_conc_locked_within_capacity);
+   refuted for the machine without the mutex with two interleaved prune passes (C05_conc_unlocked_refuted).
+   What remains PARTIAL: that the real sync.Mutex / defer Unlock make the real Put behave as the locked machine, and
+   the Go memory model, are not proved; the harness checks it by a linearizability search over recorded concurrent
+   histories of the real store (lin lines) and by stress runs (conc lines).  Get running concurrently with Put is
+   not part of the machine. *)
 From Shisui Require Import Base.Bytes Gen.K_storage Model.Storage Model.StorageConc Proofs.Storage Proofs.StorageConc.
 
 (* the usage figure kept and persisted never under-reports: after every history (restarts and crashes included)
@@ -73,17 +79,64 @@ Theorem C05_five_percent : forall (V : Type) cm nd (d : db (V:=V)) c,
 Proof. exact five_percent. Qed.
 Print Assumptions C05_five_percent.
 
-(* concurrent clause, partial (see header) *)
+(* ---- concurrent clause: the small-step machine of Model/StorageConc.v (N goroutines, scheduler = any list of
+   goroutine indices, Put split at its shared accesses including the three stages of prune) *)
+
+(* the six steps of one Put, run without interference, are exactly Put *)
+Theorem C05_conc_put_steps_are_put : forall (V : Type) (vlen : V -> N) (dec : bytes -> N) (s : st (V:=V)) id v,
+  length (node s) = 32%nat ->
+  exists r, micro_iter vlen dec 6 s id v MCheck = (put_state vlen dec s (id, v), MDone r).
+Proof. exact @micro_run_put. Qed.
+Print Assumptions C05_conc_put_steps_are_put.
+
+(* with the mutex: for EVERY schedule, whenever nobody is inside Put (in particular once all goroutines have
+   finished) the shared store equals the Puts started so far executed one after another in lock-acquisition order *)
+Theorem C05_conc_locked_serial : forall (V : Type) (vlen : V -> N) (dec : bytes -> N) (s0 : st (V:=V)) work sched,
+  length (node s0) = 32%nat ->
+  let c := exec vlen dec true (start s0 work) sched in
+  (lock c = None -> sh c = seq_puts vlen dec s0 (log c)) /\ (quiescent c = true -> lock c = None).
+Proof. exact @locked_is_serial. Qed.
+Print Assumptions C05_conc_locked_serial.
+
+(* hence the sequential theorems hold after every concurrent history: the final store is the memory of a run of the
+   sequential model over those Puts (each one given to some goroutine), with the accounting invariant ... *)
+Theorem C05_conc_locked_accounting : forall (V : Type) (vlen : V -> N) (vhead8 : V -> res N) (dec : bytes -> N) Q
+    (y0 : sys (V:=V)) work sched,
+  SInv vlen Q y0 -> Forall (fun p => valid_id (node (mem y0)) (fst p)) (concat work) ->
+  let c := exec vlen dec true (start (mem y0) work) sched in
+  quiescent c = true ->
+  exists y', run vlen vhead8 dec y0 (map (fun p => OPut (fst p) (snd p)) (log c)) = Ok y' /\ mem y' = sh c /\
+    SInv vlen (fun k v => Q k v \/ was_put (node (mem y0)) (map (fun p => OPut (fst p) (snd p)) (log c)) k v) y' /\
+    forall p, In p (log c) -> In p (concat work).
+Proof. exact @locked_quiescent_inv. Qed.
+Print Assumptions C05_conc_locked_accounting.
+
+(* ... and, with items no larger than the pruning target, within capacity *)
+Theorem C05_conc_locked_within_capacity : forall (V : Type) (vlen : V -> N) (vhead8 : V -> res N) (dec : bytes -> N) Q
+    (y0 : sys (V:=V)) work sched,
+  SInv vlen Q y0 -> cnt (mem y0) <= cap (mem y0) ->
+  Forall (fun p => valid_id (node (mem y0)) (fst p) /\ 32 + vlen (snd p) <= expect (mem y0)) (concat work) ->
+  let c := exec vlen dec true (start (mem y0) work) sched in
+  quiescent c = true -> cnt (sh c) <= cap (sh c) /\ held vlen (sh c) <= cap (sh c).
+Proof. exact @locked_quiescent_within_capacity. Qed.
+Print Assumptions C05_conc_locked_within_capacity.
+
+(* the code before fix C05-put-mutex: two goroutines, both pass the capacity, both prune passes scan the same
+   database and both subtract - the usage figure and the persisted record under-report, the bytes held exceed the capacity *)
 Theorem C05_conc_unlocked_refuted :
-  exists sched y, exec_sched nv_len le_to_N conc_demo sched = Some y /\ all_done y = true /\
-    (exists n, rec (cdb y) = Some (SizeRec n) /\ n < held_kv nv_len (kv (cdb y))).
+  let c := exec nv_len le_to_N false (start conc_s0 conc_work) conc_sched in
+  quiescent c = true /\
+  cnt (sh c) = 900096 /\ held nv_len (sh c) = 1000128 /\
+  rec (sdb (sh c)) = Some (SizeRec 900096) /\
+  cap (sh c) < held nv_len (sh c).
 Proof. exact conc_unlocked_refuted. Qed.
 Print Assumptions C05_conc_unlocked_refuted.
 
-Theorem C05_conc_locked_serial : forall (V : Type) (vlen : V -> N) (vhead8 : V -> res N) (dec : bytes -> N) (y : sys (V:=V)) sched,
-  exec_locked vlen dec vhead8 y sched = run vlen vhead8 dec y (map (fun p => OPut (fst p) (snd p)) sched).
-Proof. exact @locked_is_serial. Qed.
-Print Assumptions C05_conc_locked_serial.
+(* the same goroutines and scheduler choices with the mutex *)
+Example C05_conc_locked_example :
+  let c := exec nv_len le_to_N true (start conc_s0 conc_work) (conc_sched ++ conc_sched) in
+  quiescent c = true /\ held nv_len (sh c) <= cnt (sh c) /\ cnt (sh c) <= cap (sh c).
+Proof. exact conc_locked_same_schedule. Qed.
 
 Example C05_nonvacuous :
   exists y, run nv_len nv_head be_to_N (init 1 K_contentDeletionPPM zero32) demo_ops = Ok y /\ cnt (mem y) = 940064.
